@@ -649,19 +649,35 @@ class BaseOrchestrator(ABC):
                         if not self.is_candidate_to_run_by_concurrency_control(
                             invocation
                         ):
-                            if invocation.task.conf.reroute_on_concurrency_control:
-                                self.set_invocation_status(
-                                    invocation_id,
-                                    InvocationStatus.CONCURRENCY_CONTROLLED,
-                                    runner_ctx,
+                            try:
+                                if invocation.task.conf.reroute_on_concurrency_control:
+                                    self.set_invocation_status(
+                                        invocation_id,
+                                        InvocationStatus.CONCURRENCY_CONTROLLED,
+                                        runner_ctx,
+                                    )
+                                    invocations_to_reroute.add(invocation_id)
+                                else:
+                                    self.set_invocation_status(
+                                        invocation_id,
+                                        InvocationStatus.CONCURRENCY_CONTROLLED_FINAL,
+                                        runner_ctx,
+                                    )
+                            except InvocationStatusError as ex:
+                                # Either another runner moved the invocation since we read its
+                                # status, or the lifecycle has no edge from its current status
+                                # (e.g. RETRY). The poll must not fail and the popped message
+                                # must not be lost: keep a still-available invocation queued.
+                                self.app.logger.warning(
+                                    f"Could not mark invocation:{invocation_id} as concurrency controlled: {ex}"
                                 )
-                                invocations_to_reroute.add(invocation_id)
-                            else:
-                                self.set_invocation_status(
-                                    invocation_id,
-                                    InvocationStatus.CONCURRENCY_CONTROLLED_FINAL,
-                                    runner_ctx,
-                                )
+                                if self.get_invocation_status(
+                                    invocation_id
+                                ).is_available_for_run():
+                                    self.app.broker.route_invocation(invocation_id)
+                                    # stop retrieving in this poll, otherwise the message
+                                    # just re-queued would be popped again right away
+                                    break
                             continue
                         try:
                             self.set_invocation_status(
